@@ -205,7 +205,21 @@ func (c *Cache[k, v]) pruneAge() {
 		if c.entries[key].used.Before(cutoff) {
 			if c.pruneFn != nil {
 				if c.prunePreFn != nil {
-					c.prunePreFn(key, c.entries[key].value)
+					// the pre function may wait for a lock whose holder is waiting for the cache lock,
+					// release the cache lock and verify the entry is unchanged and still expired
+					e := c.entries[key]
+					c.mu.Unlock()
+					c.prunePreFn(key, e.value)
+					c.mu.Lock()
+					if c.entries[key] != e || !e.used.Before(cutoff) {
+						if c.prunePostFn != nil {
+							c.prunePostFn(key, e.value)
+						}
+						if c.entries[key] == e && e.used.Before(oldest) {
+							oldest = e.used
+						}
+						continue
+					}
 				}
 				err := c.pruneFn(key, c.entries[key].value)
 				if c.prunePostFn != nil {
@@ -262,9 +276,24 @@ func (c *Cache[k, v]) pruneCount() {
 	delLen := len(keyList) - c.minCount
 	delCount := 0
 	for _, key := range keyList {
+		if c.entries[key] == nil {
+			// removed while the lock was released below
+			continue
+		}
 		if c.pruneFn != nil {
 			if c.prunePreFn != nil {
-				c.prunePreFn(key, c.entries[key].value)
+				// the pre function may wait for a lock whose holder is waiting for the cache lock,
+				// release the cache lock and verify the entry is unchanged
+				e := c.entries[key]
+				c.mu.Unlock()
+				c.prunePreFn(key, e.value)
+				c.mu.Lock()
+				if c.entries[key] != e {
+					if c.prunePostFn != nil {
+						c.prunePostFn(key, e.value)
+					}
+					continue
+				}
 			}
 			err := c.pruneFn(key, c.entries[key].value)
 			if c.prunePostFn != nil {
